@@ -98,6 +98,9 @@ def dump_scalar(scalar, version=LATEST_VER):
     elif isinstance(scalar, Bin):
         return dump_bin(scalar, version=version)
     elif isinstance(scalar, XStr):
+        if version < VER_3_0:
+            raise ValueError('Project Haystack %s ' \
+                             'does not support XStr' % version)
         return dump_xstr(scalar, version=version)
     elif isinstance(scalar, Uri):
         return dump_uri(scalar, version=version)
@@ -118,6 +121,9 @@ def dump_scalar(scalar, version=LATEST_VER):
             isinstance(scalar, int):
         return dump_decimal(scalar, version=version)
     elif isinstance(scalar, Grid):
+        if version < VER_3_0:
+            raise ValueError('Project Haystack %s ' \
+                             'does not support nested grids' % version)
         return _dump_grid_to_json(scalar)
     else:  # pragma: no cover
         raise NotImplementedError('Unhandled case: %r' % scalar)
